@@ -19,6 +19,7 @@ CONSTANTS
   MaxNet = 0
   W = {}
   MayTimeout = {a, b, c}
+  MayLink = {}
   Gen = FALSE
 SPECIFICATION Spec
 SYMMETRY Symm
